@@ -6,6 +6,7 @@ package rules1
 
 import (
 	"fmt"
+	"github.com/blinklabs-io/gouroboros/ledger/common"
 	"math/big"
 	"sort"
 
@@ -65,6 +66,12 @@ func (c *Case) clone() *Case {
 	for k, v := range c.SS.Rewards {
 		ss.Rewards[k] = v
 	}
+	for k, v := range c.SS.PoolRetiring {
+		ss.PoolRetiring[k] = v
+	}
+	for k, v := range c.SS.Committee {
+		ss.Committee[k] = v
+	}
 	n.SS = ss
 	return &n
 }
@@ -97,7 +104,14 @@ func (c *Case) state() (*State, error) {
 	for k, v := range c.SS.Pools {
 		if v {
 			st.pools[keys[k].hash] = true
+			if e := c.SS.PoolRetiring[k]; e != nil {
+				st.poolRetire[keys[k].hash] = e
+			}
 		}
+	}
+	for k, resigned := range c.SS.Committee {
+		hot := common.Blake2b224(keys[(k+1)%nKeys].hash)
+		st.committee[keys[k].hash] = common.CommitteeMember{ColdKey: common.Blake2b224(keys[k].hash), HotKey: &hot, ExpiryEpoch: 500, Resigned: resigned}
 	}
 	for k, v := range c.SS.DReps {
 		if v {
@@ -229,10 +243,10 @@ func genCerts(rt *rapid.T, era Era, p Params, ss *StSpec, max int, twice bool) [
 		kinds = []CertKind{CStakeReg, CStakeDereg, CStakeDeleg, CPoolReg, CPoolRetire}
 	case era == Conway:
 		kinds = []CertKind{CStakeReg, CStakeDereg, CStakeDeleg, CPoolReg, CPoolRetire, CReg, CUnreg,
-			CVoteDeleg, CStakeVoteDeleg, CStakeRegDeleg, CVoteRegDeleg, CStakeVoteRegDg, CDRepReg, CDRepUnreg, CDRepUpdate}
+			CVoteDeleg, CStakeVoteDeleg, CStakeRegDeleg, CVoteRegDeleg, CStakeVoteRegDg, CDRepReg, CDRepUnreg, CDRepUpdate, CAuthHot, CResignCold}
 	default: // Dijkstra removed the deposit-less registration certificates
 		kinds = []CertKind{CStakeDeleg, CPoolReg, CPoolRetire, CReg, CUnreg,
-			CVoteDeleg, CStakeVoteDeleg, CStakeRegDeleg, CVoteRegDeleg, CStakeVoteRegDg, CDRepReg, CDRepUnreg, CDRepUpdate}
+			CVoteDeleg, CStakeVoteDeleg, CStakeRegDeleg, CVoteRegDeleg, CStakeVoteRegDg, CDRepReg, CDRepUnreg, CDRepUpdate, CAuthHot, CResignCold}
 	}
 	var out []Cert
 	for i := 0; i < n; i++ {
@@ -293,6 +307,10 @@ func genCerts(rt *rapid.T, era Era, p Params, ss *StSpec, max int, twice bool) [
 			c.Amount = p.DRepDeposit
 		case CDRepUpdate:
 			c.Key, ok = pick(dreps, drepKeys, true, "certKey")
+		case CAuthHot, CResignCold:
+			// committee cold credential; whether it is a (resigned) member is up to
+			// the state - irrelevant for the balance
+			c.Key = drepKeys[rapid.IntRange(0, len(drepKeys)-1).Draw(rt, "ccKey")]
 		}
 		if ok {
 			out = append(out, c)
@@ -335,6 +353,24 @@ func genCase(rt *rapid.T, era Era, o genOpts) *Case {
 	}
 	for _, k := range poolKeys {
 		ss.Pools[k] = rapid.Bool().Draw(rt, "poolReg")
+		if ss.Pools[k] {
+			// pending retirement reported through PoolCurrentState's second value
+			switch rapid.IntRange(0, 6).Draw(rt, "poolRetiring") {
+			case 0:
+				ss.PoolRetiring[k] = u64p(0)
+			case 1:
+				ss.PoolRetiring[k] = u64p(rapid.Uint64Range(1, 1000).Draw(rt, "retireEpochState"))
+			case 2:
+				ss.PoolRetiring[k] = u64p(^uint64(0))
+			}
+		}
+	}
+	if era >= Conway && rapid.IntRange(0, 3).Draw(rt, "committee") == 0 {
+		for _, k := range drepKeys {
+			if rapid.Bool().Draw(rt, "ccMember") {
+				ss.Committee[k] = rapid.Bool().Draw(rt, "ccResigned")
+			}
+		}
 	}
 	for _, k := range drepKeys {
 		ss.DReps[k] = rapid.Bool().Draw(rt, "drepReg")
